@@ -327,6 +327,7 @@ package hrpc
 //@   requires forall(f, haskey(m.values, f) ==> strlen(f) <= 255)
 //@   requires forall(f, q, haskey(m.values, f) && haskey(m.values[f], q), strlen(q) + len(m.values[f][q]) < 2147000000)
 //@   requires emptyQualifier != nil && forall(q, haskey(emptyQualifier, q) ==> strlen(q) == 0 && len(emptyQualifier[q]) == 0)
+//@   requires mapsum(m.values, f, mapsum(ite(m.mutationType == 3 && m.values[f] == nil, emptyQualifier, m.values[f]), q, 24 + len(m.key) + strlen(f) + strlen(q) + len(ite(m.mutationType == 3 && m.values[f] == nil, emptyQualifier, m.values[f])[q]))) <= 281474976710656
 //@   requires *MutationProtoDeleteFamilyVersion == 3 && *MutationProtoDeleteFamily == 2 && *MutationProtoDeleteOneVersion == 0 && *MutationProtoDeleteMultipleVersions == 1
 //@   ensures[C01] r0 != nil && ownSpecifier(r0.Region, m.region)
 //@   ensures[C01] r0.Mutation != nil && sameslice(r0.Mutation.Row, m.key)
